@@ -222,6 +222,23 @@ func RunClientCase(cs map[string]any, id int, seed int64, tmp string) Result {
 			evs = append(evs, Event{"ev": "Prior", "kind": map[bool]string{true: "data", false: "error"}[perr == nil], "dataOk": bytes.Equal(praw, pq)})
 		}
 	}
+	if pk, _ := cs["prior"].(string); pk == "provSupported" || pk == "provUnsupported" {
+		// an earlier call through another provider whose answer to IsSupported is the given one
+		pp := &scriptedProvider{kind: map[string]string{"provSupported": "bytes", "provUnsupported": "unsupportedNoDevice"}[pk], bytes: RandBytes(rng, 2000), err: errors.New("x")}
+		var prd [64]byte
+		rng.Read(prd[:])
+		pp.rd = prd
+		clientFlagMu.Lock()
+		flag.Set("tdx_guest_device_path", filepath.Join(tmp, "does-not-exist"))
+		var praw []byte
+		po := Guard(10*time.Second, func() error {
+			var err error
+			praw, err = client.GetRawQuote(pp, prd)
+			return err
+		})
+		clientFlagMu.Unlock()
+		evs = append(evs, Event{"ev": "Prior", "kind": map[bool]string{true: "data", false: "error"}[po.Verdict() == "accept"], "dataOk": bytes.Equal(praw, pp.bytes)})
+	}
 	if via == "device" {
 		d := mkDev()
 		target = d
